@@ -802,5 +802,5 @@ func TestC06_image(t *testing.T) {
 		}
 		return
 	}
-	ev.Check(t, col, ev.IntEnv("C06_IMAGE_CHECKS", ev.Scale(800, 4000)), genImgCase, propImage)
+	ev.Check(t, col, ev.IntEnv("C06_IMAGE_CHECKS", ev.Scale(2500, 10000)), genImgCase, propImage)
 }
